@@ -369,6 +369,76 @@ def build_T4t(tree):
     return text, span_sha(body) + hashlib.sha256(ptxt.encode()).hexdigest()[:8]
 
 
+def _tiled_region_call(fn, what):
+    """the single `with self._iterate_indices_for_tiled_region(...) as (indices, output_shape):` of a get_total_pixel_matrix"""
+    withs = [n for n in ast.walk(fn) if isinstance(n, ast.With) and len(n.items) == 1 and isinstance(n.items[0].context_expr, ast.Call)
+             and _norm(n.items[0].context_expr.func) == 'self._iterate_indices_for_tiled_region']
+    if len(withs) != 1:
+        raise Unsupported(f'{what}: single `with self._iterate_indices_for_tiled_region(...)` not found')
+    w = withs[0]
+    if _norm(w.items[0].optional_vars) != '(indices,output_shape)' or w.items[0].context_expr.args:
+        raise Unsupported(f'{what}: the tiled-region context is no longer bound to (indices, output_shape) / has positional arguments')
+    return w, {k.arg: k.value for k in w.items[0].context_expr.keywords}
+
+
+def _forwarding(tree, cls, callee_tree, name, doc, extra_pins=()):
+    fn = find_func(tree, cls + '.get_total_pixel_matrix')
+    body = strip_doc(fn.body)
+    gate = ''.join(_norm(st) for st in body[:2])
+    for needle in ('ifnotself.is_tiled:raiseRuntimeError(', 'ifnotself.is_indexable_as_total_pixel_matrix():raiseRuntimeError('):
+        if needle not in gate:
+            raise Unsupported(f'{cls}.get_total_pixel_matrix: gate changed (missing {needle})')
+    txt = ''.join(_norm(st) for st in body)
+    for needle in extra_pins:
+        if needle not in txt:
+            raise Unsupported(f'{cls}.get_total_pixel_matrix changed (missing {needle[:70]})')
+    w, kws = _tiled_region_call(fn, cls + '.get_total_pixel_matrix')
+    # the body of the with-block is a single `return self._get_pixels_by_[seg_]frame(spatial_shape=output_shape, indices_iterator=indices, ...)`
+    if len(w.body) != 1 or not isinstance(w.body[0], ast.Return) or not isinstance(w.body[0].value, ast.Call):
+        raise Unsupported(f'{cls}.get_total_pixel_matrix: body of the tiled-region context is no longer a single return')
+    inner = {k.arg: _norm(k.value) for k in w.body[0].value.keywords}
+    if inner.get('spatial_shape') != 'output_shape' or inner.get('indices_iterator') != 'indices':
+        raise Unsupported(f'{cls}.get_total_pixel_matrix: output shape / instruction iterator no longer handed on unchanged')
+    callee = find_func(callee_tree, '_Image._iterate_indices_for_tiled_region')
+    names = [a.arg for a in callee.args.args]
+    defaults = dict(zip(names[len(names) - len(callee.args.defaults):], callee.args.defaults))
+    want = ['row_start', 'row_end', 'column_start', 'column_end', 'as_indices', 'allow_missing_values', 'allow_missing_combinations']
+    vals = []
+    for k in want:
+        v = kws.get(k, defaults.get(k))
+        if v is None:
+            raise Unsupported(f'{cls}.get_total_pixel_matrix: no value for {k}')
+        vals.append(v)
+    for k in kws:
+        if k not in want + ['channel_indices', 'remap_channel_indices']:
+            raise Unsupported(f'{cls}.get_total_pixel_matrix: unexpected keyword {k} in the tiled-region call')
+    blk = [ast.parse(ast.unparse(ast.Return(value=ast.Tuple(elts=vals, ctx=ast.Load())))).body[0]]
+    text = translate_block(blk, name, [('row_start', 'int'), ('row_end', 'int'), ('column_start', 'int'), ('column_end', 'int'),
+                                       ('as_indices', 'bool')], {}, doc=doc)
+    return text, hashlib.sha256((txt + ast.unparse(callee.args)).encode()).hexdigest()
+
+
+def build_T4fi(tree):
+    return _forwarding(tree, 'Image', tree, 'imageTpmCall',
+                       '`Image.get_total_pixel_matrix` -> `_iterate_indices_for_tiled_region`: (row_start, row_end, column_start, column_end, '
+                       'as_indices, allow_missing_values, allow_missing_combinations) as forwarded (callee defaults where the call is silent)')
+
+
+def build_T4fs(tree):
+    import os
+    img = ast.parse(open(os.path.join(os.environ.get('HD_REPO', '/repo'), 'src', 'highdicom', 'image.py')).read())
+    return _forwarding(tree, 'Segmentation', img, 'segTpmCall',
+                       '`Segmentation.get_total_pixel_matrix` -> `_iterate_indices_for_tiled_region`: (row_start, row_end, column_start, '
+                       'column_end, as_indices, allow_missing_values, allow_missing_combinations) as forwarded',
+                       extra_pins=("ifsegment_numbersisNone:segment_numbers=list(self.segment_numbers)",
+                                   "iflen(segment_numbers)==0:raiseValueError(",
+                                   "ifself.segmentation_type==SegmentationTypeValues.LABELMAP:channel_indices=None"
+                                   "else:channel_indices=[{'ReferencedSegmentNumber':segment_numbers}]",
+                                   "remap_channel_indices=self._get_segment_remap_values(segment_numbers,combine_segments=combine_segments,relabel=relabel)",
+                                   "channel_indices=channel_indices,remap_channel_indices=[remap_channel_indices]",
+                                   "segment_numbers=np.array(segment_numbers)"))
+
+
 TARGETS = {
     'T6': {'file': 'spatial.py', 'build': build_T6},
     'T4o': {'file': 'seg/sop.py', 'build': build_T4o, 'imports': ['HdVerif.Model.Round']},
@@ -376,4 +446,6 @@ TARGETS = {
     'T5g': {'file': 'image.py', 'build': build_T5g},
     'T4c': {'file': 'seg/sop.py', 'build': build_T4c},
     'T4t': {'file': 'image.py', 'build': build_T4t},
+    'T4fi': {'file': 'image.py', 'build': build_T4fi},
+    'T4fs': {'file': 'seg/sop.py', 'build': build_T4fs},
 }
